@@ -4,6 +4,7 @@ import (
 	"bytes"
 	"fmt"
 	"testing"
+	"time"
 
 	"github.com/btcsuite/btcd/btcec/v2"
 	"github.com/lightninglabs/lightning-node-connect/mailbox"
@@ -11,6 +12,7 @@ import (
 	"pgregory.net/rapid"
 
 	"verif/harness/stats"
+	"verif/harness/vnet"
 )
 
 type c17Case struct {
@@ -241,6 +243,97 @@ func TestC17Codec(t *testing.T) {
 		}
 		if v := runC17(c); v != "" {
 			rec.Pending(v, "c17", c)
+			rt.Fatalf("%s", v)
+		}
+	})
+	rec.Done()
+}
+
+// TestC17Streams: the stream the client sends on is the one the server
+// receives on and vice versa, observed at the relay and through
+// LocalAddr/RemoteAddr; the two directions never share a stream.
+func TestC17Streams(t *testing.T) {
+	const unit = "TestC17Streams"
+	rec := stats.New(t, "C17", unit)
+	run := func(seed uint64) string {
+		var v string
+		bo := vnet.InBubble(t, 60*time.Second, func() {
+			p, err := newMailboxPair(seed, 0)
+			if err != nil {
+				v = err.Error()
+				return
+			}
+			defer p.Close()
+			cl, cr := p.C.LocalAddr().(*mailbox.Addr).SID, p.C.RemoteAddr().(*mailbox.Addr).SID
+			sl, sr := p.S.LocalAddr().(*mailbox.Addr).SID, p.S.RemoteAddr().(*mailbox.Addr).SID
+			if cl != sr {
+				v = "the client's send stream is not the server's receive stream"
+				return
+			}
+			if cr != sl {
+				v = "the client's receive stream is not the server's send stream"
+				return
+			}
+			if cl == cr {
+				v = "both directions share one stream"
+				return
+			}
+			if cl != mailbox.GetSID(p.SID, false) || cr != mailbox.GetSID(p.SID, true) {
+				v = "stream ids are not the ones derived from the SID"
+				return
+			}
+			// push one message each way and look at what the relay saw
+			go func() { _, _ = p.C.Write([]byte("c2s-payload")) }()
+			go func() { _, _ = p.S.Write([]byte("s2c-payload")) }()
+			buf := make([]byte, 64)
+			if n, err := p.S.Read(buf); err != nil || string(buf[:n]) != "c2s-payload" {
+				v = fmt.Sprintf("server read %q, %v", buf[:n], err)
+				return
+			}
+			if n, err := p.C.Read(buf); err != nil || string(buf[:n]) != "s2c-payload" {
+				v = fmt.Sprintf("client read %q, %v", buf[:n], err)
+				return
+			}
+			_, events := p.R.Snapshot()
+			for _, e := range events {
+				switch {
+				case e.Op == "send" && e.Who == "client" && e.Stream != string(cl[:]):
+					v = "the client sent on a stream other than its send stream"
+				case e.Op == "send" && e.Who == "server" && e.Stream != string(sl[:]):
+					v = "the server sent on a stream other than its send stream"
+				case e.Op == "recv" && e.Who == "client" && e.Stream != string(cr[:]):
+					v = "the client received from a stream other than its receive stream"
+				case e.Op == "recv" && e.Who == "server" && e.Stream != string(sr[:]):
+					v = "the server received from a stream other than its receive stream"
+				}
+			}
+		})
+		if bo.Panic != "" && !bo.Deadlock && v == "" {
+			v = "panic: " + bo.Panic
+		}
+		return v
+	}
+	var rc struct {
+		Seed uint64 `json:"seed"`
+	}
+	if stats.ReplayCase(unit, &rc) {
+		if v := run(rc.Seed); v != "" {
+			rec.Violation(v, "streams", rc)
+			t.Fatal(v)
+		}
+		return
+	}
+	if stats.ReplayMode() {
+		t.Skip()
+	}
+	rapid.Check(t, func(rt *rapid.T) {
+		seed := rapid.Uint64().Draw(rt, "seed")
+		rec.Case(true, seed, "live_pair_streams")
+		if rec.WantSample() {
+			rec.Sample(map[string]uint64{"seed": seed})
+		}
+		if v := run(seed); v != "" {
+			rec.Pending(v, "streams", map[string]uint64{"seed": seed})
 			rt.Fatalf("%s", v)
 		}
 	})
